@@ -26,7 +26,8 @@ Definition th_facts1_b (g : shared) (T : list thread) (rp : pc) (th : thread) : 
   | PM0 k => s_open (getst g (g_cur g)) && krot_b g T k
   | PM1 y k | PM2 y k | PM3 y k => (y =? g_cur g) && s_open (getst g y) && krot_b g T k
   | PM4 y f k => (S y =? g_cur g) && krot_b g T k
-  | PRel _ _ k | PLast _ _ k | PRun _ _ _ k => krot_b g T k
+  | PRel _ _ k | PLast _ _ k | PRun _ _ _ k =>
+      krot_b g T k && match k with KRetry => imp (op_locking th) (opt_none (g_await g)) | _ => true end
   | PC5 x | PC6 x => x =? g_cur g
   | PCSwapped x e => (S x =? g_cur g) && (e =? g_cur g) && s_open (getst g x)
   | PRT3 => (K g T <=? 1) && negb (opt_none (g_await g))
